@@ -29,8 +29,8 @@ RULE = ("cases are hub programs (token lists over broadcast A|B<:A|C, enter/exit
 ASSUMPTIONS = ["the 70-line sequential reference hub is the specification (recipients fixed when delivery of a message "
                "starts; depth-first delivery; ignore matches the exact message class)",
                "handlers that raise are outside the statement and are not generated",
-               "a message whose class is ignored at flush time but was not when queued is ambiguous in the statement; "
-               "such cases are discarded and counted"]
+               "a message whose class is ignored at flush time but was not when queued, and a message whose strict superclass "
+               "is ignored, are ambiguous in the statement; such programs are discarded and counted"]
 ANCHORS = ["glue.core.hub:Hub.broadcast", "glue.core.hub:Hub.delay_callbacks", "glue.core.hub:Hub._find_handlers",
            "glue.core.hub:Hub.ignore_callbacks", "glue.core.hub:Hub.subscribe", "glue.core.hub:Hub.unsubscribe",
            "glue.core.hub_callback_container:HubCallbackContainer._auto_remove"]
@@ -107,7 +107,7 @@ class ModelHub:
             if self.depth == 0:
                 queue, self.queue = self.queue, []
                 for msg in queue:
-                    if self.ignore.get(type(msg), 0) > 0:
+                    if any(n > 0 and isinstance(msg, c) for c, n in self.ignore.items()):
                         # queued while not ignored, ignored now: the statement does not say
                         raise Ambiguous()
                     self.broadcast(msg)
@@ -124,6 +124,10 @@ class ModelHub:
     def broadcast(self, msg):
         if self.ignore.get(type(msg), 0) > 0:
             return
+        if any(n > 0 and isinstance(msg, c) for c, n in self.ignore.items()):
+            # a superclass of the message's class is ignored: the statement ("ignored message types are
+            # dropped") does not say whether that covers subclasses; either behaviour is accepted
+            raise Ambiguous()
         if self.depth > 0:
             self.queue.append(msg)
             return
@@ -466,7 +470,7 @@ CONFIGS = [
 ALPHABET = [("b", "A"), ("b", "B"), ("b", "C"), ("delay",), ("exit",), ("exit_exc",), ("ignore", "B"),
             ("sub", 2, "A", "method", "all", 7), ("unsub", 1, "A"), ("drop", 1)]
 ENUM_LEN = {"quick": 4, "thorough": 6}
-N_RANDOM = {"quick": 6000, "thorough": 200000}
+N_RANDOM = {"quick": 20000, "thorough": 400000}
 EXHAUSTIVE = {"quick": False, "thorough": False}
 
 
@@ -490,7 +494,7 @@ def run_program(ctx, config_id, config, ties, prog):
     try:
         model.interpret(prog)
     except Ambiguous:
-        ctx.count("ambiguous_ignore_at_flush_discarded")
+        ctx.count("ambiguous_ignore_programs_discarded")
         return
     real.interpret(prog)
     sig = compare(ctx, config_id, prog, real, model, ties)
